@@ -293,14 +293,8 @@ def check(rec, kind, idx, rng, tier):
                             if dd is None:
                                 rec.ok('dask.equal_interval.equals_numpy')
                             else:
-                                # boundaries may differ by rounding of a differently-reduced min/max: judge only outside the band
-                                w = (mx - mn) / k; t = (af - mn) / w
-                                with np.errstate(invalid='ignore'):
-                                    nb_ = np.abs(t - np.round(t)) < 1e-9 * max(1.0, scale / max(w, 1e-300))
-                                if ((cd != c) & fin & ~nb_).any():
-                                    rec.violation('equal_interval.dask_differs', 'equal_interval on Dask differs from NumPy: %r' % (dd,), payd)
-                                else:
-                                    rec.dc('dask.equal_interval.boundary_band')
+                                # min and max are exact whatever the reduction order: the cuts, hence the labels, must be identical
+                                rec.violation('equal_interval.dask_differs', 'equal_interval on Dask differs from NumPy: %r' % (dd,), payd)
                     else:
                         rec.ok('dask.quantile.range_order')
         return
